@@ -1,6 +1,6 @@
 ----------------------------- MODULE OptionsTrace -----------------------------
 (* {ev:"fwd", m, names:[..], usage:{name:[types]}, man:{name:value}, med:{name:value}, url_names:[..]}   *)
-(* {ev:"codec", name, v1, v2, ok}                                                                          *)
+(* {ev:"codec", name, v1, v2, ok, given}                                                                          *)
 EXTENDS Options, TLC, Json, IOUtils
 TraceLog == ndJsonDeserialize(IOEnv.TRACE_FILE)
 VARIABLE l
@@ -13,7 +13,10 @@ Check(t) ==
                   Mismatches(t.m, ToSet(t.names), t.usage, t.man, t.med))
         /\ Report("C07_NotForwarded", C07_NotForwarded(t.m, t.url_names, t.usage, ToSet(t.names)),
                   { t.url_names[i] : i \in { j \in 1..Len(t.url_names) : t.url_names[j] \in ToSet(t.names) /\ t.m \notin ToSet(t.usage[t.url_names[j]]) } })
-    ELSE IF t.ev = "codec" THEN Report("C07_CodecIdentity", t.ok = 1 /\ C07_CodecIdentity(t.v1, t.v2), [name |-> t.name])
+        /\ Report("C07_GivenReachesMedia", C07_GivenReachesMedia(t.m, t.usage, t.given, t.med), GivenMismatches(t.m, t.usage, t.given, t.med))
+    ELSE IF t.ev = "codec" THEN
+        /\ Report("C07_CodecIdentity", t.ok = 1 /\ C07_CodecIdentity(t.v1, t.v2), [name |-> t.name])
+        /\ Report("C07_CodecMeaning", t.ok = 0 \/ C07_CodecMeaning(t.given, t.v1), [name |-> t.name])
     ELSE TRUE
 TraceInit == l = 1
 TraceNext == l <= Len(TraceLog) /\ Check(TraceLog[l]) /\ l' = l + 1
